@@ -82,6 +82,7 @@ type Scenario struct {
 	UDPSock   bool     `json:"udp_sock,omitempty"`   // the datagram server runs on a UDP socket (SessionUDP branch with control messages) where the build has that seam, not on a generic PacketConn
 	PostYield bool     `json:"post_yield,omitempty"` // the return of every transport operation is a scheduling point of its own
 	Homes     int      `json:"homes,omitempty"`      // with UDPSock: the server host has this many addresses (two IPv4, one IPv6)
+	ShortIdle bool     `json:"short_idle,omitempty"` // the stream server's idle timeout is 300 ms, every stream client pipelines and the handler of its first query takes longer than that: the queries behind it are in the socket long before the server comes back for them
 	Shared    bool     `json:"shared,omitempty"`     // the way applications hold a Client: one dns.Client per transport, shared by all the tasks of the run for the exchanges the library dials itself (SingleInflight set, which is documented to do nothing)
 
 	// framing
@@ -302,6 +303,32 @@ func Gen(seed uint64, tier string) any {
 				}
 				for j := range c.Exch {
 					c.Exch[j].Size = 0
+				}
+			}
+		}
+	}
+	if allPipe := func() bool {
+		n := 0
+		for _, c := range sc.Clients {
+			if c.Net == "tcp" && (!c.Pipeline || c.SlowRead || c.IntrFrame > 0) {
+				return false
+			}
+			if c.Net == "tcp" {
+				n++
+			}
+		}
+		return n > 0
+	}(); allPipe && !sc.Shared && core.Chance(r, 40) {
+		sc.ShortIdle = true
+		for i := range sc.Clients {
+			if c := &sc.Clients[i]; c.Pipeline {
+				for j := range c.Exch {
+					// (answers from the handler itself: a reply written by another task after the server has given an
+					// idle connection up would meet the close)
+					c.Exch[j].H.Kind, c.Exch[j].H.SleepMs = "normal", 0
+				}
+				if len(c.Exch) > 1 {
+					c.Exch[0].H.SleepMs = core.Pick(r, 400, 700, 1500)
 				}
 			}
 		}
@@ -1855,6 +1882,9 @@ func runExchange(sc *Scenario, res *core.Result, verbose bool) {
 	x.pc = x.uc.PacketConn
 	mk := func() *dns.Server {
 		s := &dns.Server{Handler: x, UDPSize: sc.UDPSize, ReadTimeout: time.Hour, IdleTimeout: hourIdle, TsigSecret: map[string]string{tsigKey: tsigSecret}}
+		if sc.ShortIdle {
+			s.IdleTimeout = shortIdle
+		}
 		for _, c := range sc.Clients {
 			if c.Trickle {
 				s.ReadTimeout = trickleTimeout
@@ -1922,6 +1952,9 @@ func runExchange(sc *Scenario, res *core.Result, verbose bool) {
 
 //go:norace
 func hourIdle() time.Duration { return time.Hour }
+
+//go:norace
+func shortIdle() time.Duration { return 300 * time.Millisecond }
 
 //go:norace
 func (x *run) judgeRun(outcome string) {
